@@ -361,7 +361,8 @@ sys_prop(
      "C02_get_or_insert_never_overwrites", "C02_get_or_insert_inserts_when_absent",
      "C02_remove_deletes_exactly_its_key", "C02_take_deletes_exactly_its_key_and_returns_it",
      "C02_clear_empties", "C02_code_keys_compare_type_and_id", "C02_code_maps_address_the_given_key"],
-    ["Private", "Deps", "CacheMap", "LocalMap"], ["handle-changed", "key-type-confusion"])
+    ["Private", "Deps", "CacheMap", "LocalMap"], ["handle-changed", "key-type-confusion", "racers-disagree"],
+    extra_engines=[("racediff", ["--parts", "reentrant"])])
 
 sys_prop(
     "C03",
@@ -377,11 +378,11 @@ sys_prop(
     "result, otherwise default_value receives an error that is one of the attempts' errors of maximal class; "
     "the empty list goes to default_value with NoDefaultValue.  Error ids/wrapping, FileContent variants, "
     "retry after repair are checked by the correspondence (traces of reads and loader calls compared verbatim).",
-    ["Proofs/Load.v", "Tie/Error.v", "Tie/LoadFromSource.v", "Props/C03.v"], ["Props/C03.vo"],
+    ["Proofs/Load.v", "Tie/Error.v", "Tie/LoadFromSource.v", "Tie/Dirs.v", "Props/C03.v"], ["Props/C03.vo"],
     ["C03_code_or_is_model_or", "C03_code_error_conversions_keep_the_class", "C03_or_prefers_the_higher_class",
      "C03_code_load_from_source_is_model_up_to_3_extensions", "C03_first_readable_decodable_extension_wins",
-     "C03_all_fail_highest_class_error_goes_to_default", "C03_empty_extension_list_goes_to_default"],
-    ["Error", "Asset", "Key"], [], mode="cold")
+     "C03_all_fail_highest_class_error_goes_to_default", "C03_empty_extension_list_goes_to_default", "C03_code_default_extension_list"],
+    ["Error", "Asset", "Key", "Flags", "Dirs"], [], mode="cold")
 
 sys_prop(
     "C05",
@@ -402,7 +403,8 @@ sys_prop(
     ["Props/C05.vo"],
     ["C05_pass_visits_exactly_the_affected_once", "C05_dependencies_first",
      "C05_code_follows_the_dfs_and_drains_messages_first", "C05_pass_restores_consistency",
-     "C05_late_binding_goes_stale", "C05_recording_as_modelled"],
+     "C05_late_binding_goes_stale", "C05_recording_as_modelled",
+     "C05_code_pass_order_is_one_reversed_post_order"],
     ["Deps", "HotReloading", "Records", "Anycache", "Asset"], ["late-bound-stale", "stale-after-pass"], mode="hot",
     assumptions=["I1: a change counts as notified once the reloader has dequeued the event (settle barrier)",
                  "I2/I3: dependencies are those of the load that produced the cached value; a get_cached that "
@@ -428,7 +430,8 @@ sys_prop(
     ["Props/C06.vo"],
     ["C06_loads_leave_reloader_state", "C06_reload_id_moves_only_in_a_pass", "C06_reload_bumps_id_by_one",
      "C06_each_affected_asset_once", "C06_watcher_reports_growth_once",
-     "C06_value_read_after_a_reported_reload_is_as_new", "C06_code_forgets_dropped_dependencies", "C06_code_visits_each_asset_once"],
+     "C06_value_read_after_a_reported_reload_is_as_new", "C06_code_forgets_dropped_dependencies", "C06_code_visits_each_asset_once",
+     "C06_code_watcher_starts_at_the_current_id"],
     ["Entry", "CallGraph", "Deps", "Private"],
     ["watcher", "guard-not-pinned", "changed-outside-hot_reload", "hot_reload-returned-early", "stale-after-pass"],
     mode="hot", extra_engines=[("rwdiff", [])])
@@ -609,15 +612,15 @@ PROPS["C04"] = dict(
     level_note="Trusted: Coq kernel+VM, the harness (tree generator, archive writers of the zip and tar crates, "
                "answer printers), the checkers in Corr/SrcCheck.v.  I5: archives with the same member path "
                "twice are not generated.",
-    gen=["Archive"],
+    gen=["Archive", "Private", "Deps"],
     model_files=["Ref/Tree.v", "Ref/Archive.v", "Corr/Common.v", "Corr/SrcCheck.v"],
     model_targets=["Corr/SrcCheck.vo"],
-    proof_files=["Proofs/Tree.v", "Proofs/Archive.v", "Tie/Archive.v", "Props/C04.v"],
+    proof_files=["Proofs/Tree.v", "Proofs/Archive.v", "Tie/Archive.v", "Tie/Graph.v", "Props/C04.v"],
     proof_targets=["Props/C04.vo"],
     props_module="Props.C04",
     theorems=["C04_listing_is_exactly_the_direct_children", "C04_listed_entries_are_readable_under_their_id",
               "C04_read_dir_answers_exactly_for_directories", "C04_code_builds_the_modelled_index",
-              "C04_code_reads_whole_members",
+              "C04_code_reads_whole_members", "C04_code_path_of_entry",
               "C04_archive_index_answers_like_the_tree", "C04_member_order_is_irrelevant",
               "C04_implied_directory_members_are_redundant", "C04_archive_nonvacuous"],
     engines=[("srcdiff", [])],
